@@ -722,9 +722,15 @@ func (db *DB) doFollowLeaders(stream string, tables []*table, offsets []common.O
 			earliestOffsetsBySource[source] = nil
 		}
 		for _, os := range offsets {
-			for source, offset := range os {
-				earliestOffset := earliestOffsetsBySource[source]
-				if earliestOffset == nil || earliestOffset.After(offset) {
+			for source := range os {
+				earliestOffsetsBySource[source] = nil
+			}
+		}
+		for source := range earliestOffsetsBySource {
+			for i, os := range offsets {
+				// a table that has no offset for this source yet needs everything from it
+				offset := os[source]
+				if i == 0 || earliestOffsetsBySource[source].After(offset) {
 					earliestOffsetsBySource[source] = offset
 				}
 			}
